@@ -266,18 +266,39 @@ Definition pkix_public_key_attributes (k : spki) : list (bytes * bytes) :=
 (* ---------- getCertificateInfo (der.go) ---------- *)
 Definition comma_join (l : list bytes) : bytes := join [44; 32] l.      (* strings.Join(_, ", ") *)
 
-(* The three repairs made for C03 are switches, so that the pre-repair code stays available
+(* joinNames (der.go): an item that is empty, begins with a double quote (34) or contains the separator
+   is written between double quotes, a double quote or backslash (92) inside preceded by a backslash *)
+Fixpoint has_sep (t : bytes) : bool :=                  (* strings.Contains(s, ", ") *)
+  match t with
+  | c :: r => match r with
+              | d :: _ => ((c =? 44) && (d =? 32)) || has_sep r
+              | [] => false
+              end
+  | [] => false
+  end.
+Definition esc1 (c : N) : bytes := if (c =? 34) || (c =? 92) then [92; c] else [c].
+Definition name_show (t : bytes) : bytes :=
+  match t with
+  | [] => [34; 34]
+  | c :: _ => if (c =? 34) || has_sep t then 34 :: flat_map esc1 t ++ [34] else t
+  end.
+Definition names_join (l : list bytes) : bytes := comma_join (map name_show l).
+
+(* The four repairs made for C03 are switches, so that the pre-repair code stays available
    to the refutation theorems:
    v_pathlen  "Max path length" printed iff MaxPathLen > 0 || (MaxPathLen == 0 && MaxPathLenZero)
               (before: MaxPathLen != 0 || MaxPathLenZero, true for the library's -1 = absent: F12)
    v_sigoid   an algorithm unknown to the library is shown by its OID (before: the library's "0")
    v_ip16     16-octet iPAddress names are formatted by net/netip (before: net.IP.String, which
-              prints an IPv4-mapped address as the IPv4 address) *)
-Record variant := { v_pathlen : bool; v_sigoid : bool; v_ip16 : bool }.
-Definition current : variant := {| v_pathlen := true; v_sigoid := true; v_ip16 := true |}.
-Definition pre_F12 : variant := {| v_pathlen := false; v_sigoid := true; v_ip16 := true |}.
-Definition pre_sigoid : variant := {| v_pathlen := true; v_sigoid := false; v_ip16 := true |}.
-Definition pre_ip16 : variant := {| v_pathlen := true; v_sigoid := true; v_ip16 := false |}.
+              prints an IPv4-mapped address as the IPv4 address)
+   v_quote    the SANs are joined by joinNames (before: strings.Join(sans, ", "), so that a name
+              containing ", " read like several names) *)
+Record variant := { v_pathlen : bool; v_sigoid : bool; v_ip16 : bool; v_quote : bool }.
+Definition current : variant := {| v_pathlen := true; v_sigoid := true; v_ip16 := true; v_quote := true |}.
+Definition pre_F12 : variant := {| v_pathlen := false; v_sigoid := true; v_ip16 := true; v_quote := true |}.
+Definition pre_sigoid : variant := {| v_pathlen := true; v_sigoid := false; v_ip16 := true; v_quote := true |}.
+Definition pre_ip16 : variant := {| v_pathlen := true; v_sigoid := true; v_ip16 := false; v_quote := true |}.
+Definition pre_quote : variant := {| v_pathlen := true; v_sigoid := true; v_ip16 := true; v_quote := false |}.
 
 Definition show_path_len (v : variant) (f : cert_fields) : bool :=
   f_bc_valid f && f_is_ca f &&
@@ -312,7 +333,7 @@ Definition describe_gen (v : variant) (f : cert_fields) : info :=
       (bs "Key usage", comma_join (key_usages (f_key_usage f)));
       (bs "Extended key usage", comma_join (x509_ekus (f_ext_key_usage f) (f_unknown_eku f)))] ++
      (if show_path_len v f then [(bs "Max path length", dec_of_Z (f_max_path_len f))] else []) ++
-     (match sans with [] => [] | _ => [(bs "SANs", comma_join sans)] end) ++
+     (match sans with [] => [] | _ => [(bs "SANs", if v_quote v then names_join sans else comma_join sans)] end) ++
      [(bs "Signature algorithm", cert_signature_algorithm v f)])
     [Info (bs "Public key") (pkix_public_key_attributes (f_spki f)) []].
 
